@@ -332,10 +332,61 @@ def judgePivot : P Verdict := do
 /-- model of the utility ops on dense matrices -/
 def permuteMat (M : Mat) (rows cols : List Nat) : Mat := sub M rows cols
 
+/-- C `round` on `x/64` (half away from zero) -/
+def round64 (x : Int) : Int := if x ≥ 0 then (x + 32) / 64 else -((-x + 32) / 64)
+
+open P in
+/-- double matrices: every entry is `x/64`, the tolerance `eps/64`; the contract of the `…dblmat…` utilities with an absolute
+error tolerance -/
+def judgeMatDbl (what : String) : P Verdict := do
+  let eps ← int
+  let (m, n, M) ← denseMat
+  let tag := s!"mat:{what}:d"
+  expect "=>"
+  let status ← tok
+  let entries : List Int := (M.flatMap id).filter (· != 0)
+  let near (x : Int) : Bool := (x - 64 * round64 x).natAbs ≤ eps.toNat
+  match what with
+  | "isbinary" | "isternary" =>
+    if status != "ok" then return .fail tag s!"status {status}"
+    let v ← tok
+    let ok := entries.all (fun x => near x && (let r := round64 x; if what == "isbinary" then r == 0 || r == 1 else r == 0 || r == 1 || r == -1))
+    if (v == "yes") == ok then return .ok s!"{tag}:{v}" else return .fail tag s!"impl={v} model={ok}"
+  | "tochr" =>
+    -- the first stored entry (row-major) that is not near an integer, or does not fit a char, decides the error
+    let firstBad := entries.findSome? (fun x => if !near x then some "err:INPUT" else if round64 x > 127 || round64 x < -128 then some "err:OVERFLOW" else none)
+    match firstBad with
+    | some e =>
+      if status == e then
+        if (← get).contains "outs=1" then return .fail s!"{tag}:object-on-error" "a matrix was handed out together with the error"
+        return .ok s!"{tag}:{e}"
+      else return .fail tag s!"expected {e}, got {status}"
+    | none =>
+      if status != "ok" then return .fail tag s!"status {status}"
+      let some A ← csr | return .fail tag "no result"
+      match checkCsr A m n with
+      | .error e => return .fail s!"{tag}:csr" e
+      | .ok R =>
+        let E := M.mapEntries round64
+        if R == E then return .ok tag else return .fail tag s!"impl={matToString R} model={matToString E}"
+  | _ =>
+    if status != "ok" then return .fail tag s!"status {status}"
+    let (em, en, E) : Nat × Nat × Mat :=
+      match what with
+      | "transpose" => (n, m, transpose m n M)
+      | "support" => (m, n, M.mapEntries (fun x => if x.natAbs > eps.toNat then 1 else 0))
+      | "ssupport" => (m, n, M.mapEntries (fun x => if x.natAbs > eps.toNat then (if x > 0 then 1 else -1) else 0))
+      | _ => (m, n, M)
+    let some A ← csr | return .fail tag "no result"
+    match checkCsr A em en with
+    | .error e => return .fail s!"{tag}:csr" e
+    | .ok R => if R == E then return .ok tag else return .fail tag s!"impl={matToString R} model={matToString E}"
+
 open P in
 def judgeMat : P Verdict := do
   let what ← tok
   let ty ← tok
+  if ty == "d" then return (← judgeMatDbl what)
   let (m, n, M) ← denseMat
   let tag := s!"mat:{what}:{ty}"
   match what with
